@@ -117,6 +117,8 @@ def gen_history_tree(rng, max_nodes, surr=False, closed_bias=0.85):
                 # node and everything below it (keeps the precondition); small pool => alias prefixes (two prefixes,
                 # one URI) and "" URIs are common
                 uri = fresh(rng.choice(["u1", "u1", "u2", ""]))
+                if rng.random() < 0.04:
+                    pfx = None            # a default-namespace binding, as from_xml stores it
                 todo = [nodes[k]]
                 while todo:
                     x = todo.pop()
@@ -164,6 +166,26 @@ def ns_closed(sn):
         if not ns_closed(c):
             return False
     return True
+
+
+def has_none_key(sn):
+    """a default-namespace binding (what from_xml stores for xmlns="..."): the prefix is None, not a str"""
+    return any(k is None for k, _ in sn["nsmap"]) or any(has_none_key(c) for c in sn["kids"])
+
+
+def none_as_null(sn):
+    d = dict(sn)
+    d["nsmap"] = [["null" if k is None else k, v] for k, v in sn["nsmap"]]
+    d["kids"] = [none_as_null(c) for c in sn["kids"]]
+    return d
+
+
+def rt_key(expected, got):
+    """the stable key of a round-trip difference: the known shape 'default-namespace prefix None comes back as the
+    string "null"' has its own key, everything else is C06:roundtrip"""
+    if has_none_key(expected) and got is not None and none_as_null(expected) == got:
+        return "C06:default-namespace-none-key"
+    return "C06:roundtrip"
 
 
 def count_nodes(sn):
@@ -384,11 +406,12 @@ def statement_checks(ctx, root, hist, to_20210209, label):
     # oracle pair: loads(dumps(v)) == v with key order
     ordered = to_ordered(ser)
     back = parse_ordered(text)
-    if back != ordered or json.dumps(json.loads(text)) != text:
+    if (back != ordered and not has_none_key(sn)) or json.dumps(json.loads(text)) != text:
         ctx.fail("oracle:json-dumps-loads", "json.dumps/json.loads are not inverse on a generated document",
                  {"kind": "oracle", "text": text}, concrete=False)
     re = run_impl(lambda: metapype_io.from_json(text))
-    rec["ordered"] = ordered
+    # for the value model a default-namespace key is what json.dumps writes for it (the string "null")
+    rec["ordered"] = back if has_none_key(sn) else ordered
     if re[0] == "ok":
         rsn = NL.snapshot(re[1])
         rec["loaded"] = ("ok", rsn)
@@ -402,7 +425,7 @@ def statement_checks(ctx, root, hist, to_20210209, label):
             ctx.fail(where, f"from_json(to_json(t)) raised {re[1]}", {"kind": "impl-vs-statement", "tree": sn, "history": hist, "json": text})
         else:
             if rsn != sn:
-                ctx.fail(where, "from_json(to_json(t)) is not t: " + first_diff(sn, rsn),
+                ctx.fail(rt_key(sn, rsn), "from_json(to_json(t)) is not t: " + first_diff(sn, rsn),
                          {"kind": "impl-vs-statement", "tree": sn, "history": hist, "json": text, "reloaded": rsn})
             if rtext2 != text:
                 ctx.fail("C06:reserialize", "re-serialising the reloaded tree gives a different JSON text",
@@ -414,7 +437,7 @@ def statement_checks(ctx, root, hist, to_20210209, label):
     for ind in INDENTS:
         ti = metapype_io.to_json(root, indent=ind)
         ctx.count("indent modes")
-        if parse_ordered(ti) != ordered:
+        if parse_ordered(ti) != ordered and not has_none_key(sn):
             ctx.fail("corr:to_json-indent", f"to_json(indent={ind}) is not the document _serialize builds (as an ordered value)",
                      {"kind": "broken-correspondence", "theorem": "C06 (serialize vs to_json, indent mode)", "tree": sn, "history": hist,
                       "indent": ind, "json": ti}, concrete=False)
@@ -427,7 +450,7 @@ def statement_checks(ctx, root, hist, to_20210209, label):
             continue
         isn = NL.snapshot(ri[1])
         if isn != sn:
-            ctx.fail("C06:roundtrip", f"from_json(to_json(t, indent={ind})) is not t: " + first_diff(sn, isn),
+            ctx.fail(rt_key(sn, isn), f"from_json(to_json(t, indent={ind})) is not t: " + first_diff(sn, isn),
                      {"kind": "impl-vs-statement", "tree": sn, "history": hist, "indent": ind, "json": ti, "reloaded": isn})
         if metapype_io.to_json(ri[1], indent=ind) != ti:
             ctx.fail("C06:reserialize", f"re-serialising (indent={ind}) the tree reloaded from indent={ind} text gives a different text",
@@ -439,7 +462,7 @@ def statement_checks(ctx, root, hist, to_20210209, label):
             ctx.fail("C06:parents", "parent links of the reloaded tree are not set to the containing node",
                      {"kind": "impl-vs-statement", "tree": sn, "history": hist, "indent": ind, "json": ti})
     # ---- statelessness of the codec (an assumption of the value model): same call, same answer
-    if metapype_io.to_json(root) != text or to_ordered(metapype_io._serialize(root)) != ordered:
+    if metapype_io.to_json(root) != text or to_ordered(metapype_io._serialize(root)) != ordered or NL.snapshot(root) != sn:
         ctx.fail("C06:stateless", "to_json of the same unchanged tree gives a different text the second time",
                  {"kind": "impl-vs-statement", "tree": sn, "history": hist, "json": text})
     if re[0] == "ok":
@@ -539,7 +562,7 @@ def statement_checks(ctx, root, hist, to_20210209, label):
     if ns_closed(esn):
         er = run_impl(lambda: metapype_io.from_json(etext))
         if er[0] != "ok" or NL.snapshot(er[1]) != esn:
-            ctx.fail("C06:roundtrip", "after an in-place edit, from_json(to_json(t)) is not t",
+            ctx.fail(rt_key(esn, NL.snapshot(er[1]) if er[0] == "ok" else None), "after an in-place edit, from_json(to_json(t)) is not t",
                      {"kind": "impl-vs-statement", "tree": esn, "history": hist + [["edit", tgt.id]], "json": etext})
     ctx.case((label, text), nontrivial=count_nodes(sn) > 1 or bool(sn["nsmap"]))
     ctx.count("closed" if closed else "ns-violating (outside the claim)")
@@ -707,7 +730,7 @@ def coq_case(rec):
     def rt(r):
         return coq_result_tree(r) if r[0] == "ok" else "(Crash " + cstr(r[1]) + ")"
     up = rec["upgraded"]
-    return ("{| c_t := " + NL.coq_ftree(rec["snapshot"]) + ";\n   c_j := " + coq_json(rec["ordered"]) +
+    return ("{| c_t := " + NL.coq_ftree(none_as_null(rec["snapshot"])) + ";\n   c_j := " + coq_json(rec["ordered"]) +
             ";\n   c_loaded := " + rt(rec["loaded"]) + ";\n   c_jl := " + coq_json(rec["lordered"]) +
             ";\n   c_lloaded := " + rt(rec["lloaded"]) + ";\n   c_ju := " + (coq_result_json(up)) +
             ";\n   c_uloaded := " + rt(rec["uloaded"]) + " |}")
@@ -715,6 +738,148 @@ def coq_case(rec):
 
 SUBCHECK = {1: "serialize vs _serialize", 2: "load vs from_json", 3: "objectify vs mp_io.objectify", 4: "legacy_load vs mp_io.from_json",
             5: "upgrade vs to_20210209", 6: "load of the upgraded document"}
+
+
+# ------------------------------------------------------------------ document-first generation (lesson l)
+def ftext(rng, surr=False):
+    """text for a document: the empty string is as likely as anything else"""
+    return fresh("") if rng.random() < 0.25 else rtext(rng, surr)
+
+
+def gen_doc_snapshot(rng, surr=False, max_nodes=14):
+    """a tree as PLAIN DATA (never through Node): closed namespace maps with re-ordering / re-binding / aliases,
+    falsy values wherever a string may be (ids, names, content, tail, prefix, keys, values)"""
+    n = rng.randint(1, max_nodes)
+    used_ids = set()
+
+    def new_id(k):
+        c = fresh("") if rng.random() < 0.15 else (fresh("0") if rng.random() < 0.05 else ("d%d" % k) + ftext(rng, surr))
+        if c in used_ids:
+            c = "d%d" % k
+        used_ids.add(c)
+        return c
+
+    def pairs(pool, surr):
+        out = []
+        for _ in range(rng.choice([0, 0, 1, 2, 3])):
+            k = fresh(rng.choice(pool)) if rng.random() < 0.7 else ftext(rng, surr)
+            if k not in [a for a, _ in out]:
+                out.append([k, ftext(rng, surr)])
+        return out
+
+    def node(k, pmap):
+        m = [list(x) for x in pmap]
+        if rng.random() < 0.4:
+            rng.shuffle(m)
+        for _ in range(rng.choice([0, 0, 1, 2])):
+            p, u = fresh(rng.choice(PREFIXES)), fresh(rng.choice(["u1", "u1", "u2", ""]))
+            hit = [x for x in m if x[0] == p]
+            if hit:
+                hit[0][1] = u
+            else:
+                m.append([p, u])
+        return {"id": new_id(k), "name": fresh(rng.choice(NAMES)) if rng.random() < 0.8 else ftext(rng, surr),
+                "content": None if rng.random() < 0.3 else ftext(rng, surr), "tail": None if rng.random() < 0.5 else ftext(rng, surr),
+                "prefix": None if rng.random() < 0.5 else fresh(rng.choice(PREFIXES)),
+                "attrs": pairs(KEYS, surr), "extras": pairs(KEYS, surr), "nsmap": m, "kids": []}
+    nodes = [node(0, [])]
+    depth = {0: 1}
+    for k in range(1, n):
+        cands = [j for j in range(k) if depth[j] < 5 and len(nodes[j]["kids"]) < 4]
+        j = rng.choice(cands)
+        c = node(k, nodes[j]["nsmap"])
+        nodes.append(c)
+        nodes[j]["kids"].append(c)
+        depth[k] = depth[j] + 1
+    return nodes[0]
+
+
+def doc_current(sn):
+    """the current JSON layout, written from the format description (one-key object name -> 8 one-key objects)"""
+    return {sn["name"]: [{"id": sn["id"]}, {"nsmap": {k: v for k, v in sn["nsmap"]}}, {"prefix": sn["prefix"]},
+                         {"attributes": {k: v for k, v in sn["attrs"]}}, {"extras": {k: v for k, v in sn["extras"]}},
+                         {"content": sn["content"]}, {"tail": sn["tail"]}, {"children": [doc_current(k) for k in sn["kids"]]}]}
+
+
+def doc_legacy(sn):
+    return {sn["name"]: [{"id": sn["id"]}, {"attributes": {k: v for k, v in sn["attrs"]}}, {"content": sn["content"]},
+                         {"children": [doc_legacy(k) for k in sn["kids"]]}]}
+
+
+def document_checks(ctx, sn, to_20210209):
+    """load -> compare with the DOCUMENT; load twice -> same tree, same ids; legacy; legacy -> upgrade -> load"""
+    from metapype.model import metapype_io, mp_io
+    text = json.dumps(doc_current(sn))
+    info = {"kind": "impl-vs-statement", "document": text, "document_tree": sn}
+    NL.reset_store()
+    a = run_impl(lambda: metapype_io.from_json(text))
+    b = run_impl(lambda: metapype_io.from_json(fresh(text)))
+    loaded = None
+    for which, r in (("first", a), ("second", b)):
+        if r[0] != "ok":
+            ctx.fail("C06:document", f"loading a generated JSON document raised {r[1]}", info)
+            continue
+        got = NL.snapshot(r[1])
+        if got != sn:
+            ctx.fail("C06:document", f"the tree loaded from a JSON document ({which} load) is not the document's tree: " + first_diff(sn, got),
+                     {**info, "loaded": got})
+        elif metapype_io.to_json(r[1]) != text:
+            ctx.fail("C06:document", "serialising the tree loaded from a JSON document does not give the document back", info)
+        elif not parents_ok(r[1]):
+            ctx.fail("C06:parents", "parent links of a tree loaded from a JSON document are not set", info)
+        loaded = r[1]
+    if a[0] == "ok" and b[0] == "ok" and [x.id for x in all_nodes(a[1])] != [x.id for x in all_nodes(b[1])]:
+        ctx.fail("C06:document", "loading the same JSON document twice gives different node ids", info)
+    # legacy layout
+    lv = legacy_view(sn)
+    ltext = json.dumps(doc_legacy(sn))
+    la = run_impl(lambda: mp_io.from_json(json.loads(ltext)))
+    lb = run_impl(lambda: mp_io.from_json(json.loads(ltext)))
+    for r in (la, lb):
+        if r[0] != "ok" or NL.snapshot(r[1]) != lv:
+            ctx.fail("C06:legacy-document", "the tree loaded from a legacy JSON document is not the document's tree: " +
+                     (r[1] if r[0] != "ok" else first_diff(lv, NL.snapshot(r[1]))), {**info, "legacy_document": ltext})
+        elif mp_io.to_json(r[1]) != ltext:
+            ctx.fail("C06:legacy-document", "serialising the tree loaded from a legacy JSON document does not give the document back",
+                     {**info, "legacy_document": ltext})
+    # legacy -> converter -> load
+    m = json.loads(ltext)
+    u = run_impl(lambda: to_20210209(m))
+    want_doc = json.dumps(doc_current(lv))
+    if u[0] != "ok" or json.dumps(m) != want_doc:
+        ctx.fail("C06:upgrade-document", "to_20210209 does not turn a legacy document into the current document with empty namespace data",
+                 {**info, "legacy_document": ltext, "upgraded": json.dumps(m)[:2000], "expected": want_doc[:2000]})
+    else:
+        for _ in range(2):
+            r = run_impl(lambda: metapype_io.from_json(json.dumps(m)))
+            if r[0] != "ok" or NL.snapshot(r[1]) != lv:
+                ctx.fail("C06:upgrade-document", "an upgraded legacy document does not load as the document's tree with empty namespace data: " +
+                         (r[1] if r[0] != "ok" else first_diff(lv, NL.snapshot(r[1]))), {**info, "legacy_document": ltext})
+    ctx.case(("doc", text), nontrivial=count_nodes(sn) > 1)
+    ctx.count("documents generated directly")
+    if any(x["id"] == "" for x in walk(sn)):
+        ctx.count("documents with an empty-string id")
+    return loaded
+
+
+def constructor_checks(ctx):
+    """Node(name, id=x).id == x, also for falsy x; content/tail '' stay ''"""
+    from metapype.model.node import Node
+    for x in ("", "0", " ", "id", "\x00"):
+        NL.reset_store()
+        n = Node(fresh("x"), id=fresh(x), content=fresh(""))
+        ctx.case(("ctor", x))
+        if n.id != x or n.content != "":
+            ctx.fail("C06:constructor-id", f"Node(name, id={x!r}).id is {n.id!r}; content '' is {n.content!r}",
+                     {"kind": "impl-vs-statement", "call": f"Node('x', id={x!r}, content='')", "observed_id": n.id, "observed_content": n.content})
+    NL.reset_store()
+
+
+DEFAULT_NS_XML = [
+    '<a xmlns="urn:d" xmlns:p="urn:p"><b><c/></b><p:e a="1">t</p:e></a>',
+    '<a xmlns="urn:d"><b xmlns="urn:e"><c xmlns:q="urn:q"/></b><b/></a>',
+    '<x:a xmlns:x="urn:x"><b xmlns="urn:inner" xml:lang="en"><c>text</c>tail</b></x:a>',
+]
 
 
 def fixed_trees():
@@ -788,6 +953,22 @@ def run(ctx):
         c.add_namespace(fresh("p%d" % k), fresh("u%d" % (k % 7)))       # one node with 300 prefixes
     statement_checks(ctx, wide, [["300 attributes, extras, prefixes and children"]], to_20210209, "wide")
     ctx.count("wide tree (>256 items)")
+    constructor_checks(ctx)
+    # documents generated directly as data (never through Node)
+    for k in range(800 if thorough else 120):
+        dsn = gen_doc_snapshot(rng, surr=rng.random() < 0.15)
+        loaded = document_checks(ctx, dsn, to_20210209)
+        if loaded is not None and k % 3 == 0:
+            _, _, rec = statement_checks(ctx, loaded, [["loaded from a generated document"]], to_20210209, "docfirst")
+            if len(recs) < 40:
+                recs.append(rec)
+    # trees with a default-namespace binding (prefix None), as the XML importer produces them
+    for xml in DEFAULT_NS_XML:
+        NL.reset_store()
+        xr = metapype_io.from_xml(xml)
+        _, _, rec = statement_checks(ctx, xr, [["from_xml", xml]], to_20210209, "default-ns")
+        recs.append(rec)
+        ctx.count("trees with a default namespace (None prefix)")
     n_small = 1500 if thorough else 220
     n_big = 600 if thorough else 60
     n_corr = 900 if thorough else 150
